@@ -236,8 +236,7 @@ Qed.
 Example C06_ex_nowrap :
   match lrun (init_sys exP exT) exRun with Some s => nowrap s | None => False end.
 Proof.
-  assert (E : exists s, lrun (init_sys exP exT) exRun = Some s /\
-                        forallb (fun x => st_ver x <? two64 - 1) (flogs s) = true).
-  { vm_compute. eexists. split; reflexivity. }
-  destruct E as (s & -> & F). intros x Hx. rewrite forallb_forall in F. apply N.ltb_lt. apply F. exact Hx.
+  remember (lrun (init_sys exP exT) exRun) as r eqn:E. vm_compute in E. subst r. cbv beta iota.
+  intros x Hx. unfold flogs in Hx. cbn [pa pb flog app In] in Hx.
+  repeat (destruct Hx as [<-|Hx]; [vm_compute; reflexivity|]). elim Hx.
 Qed.
